@@ -65,6 +65,49 @@ def emit(ctx, ob, model_terms=(), for_cvc5=False):
     return '\n'.join(x for x in out if x) + '\n'
 
 
+def emit_batch(ctx, obs, for_cvc5=False):
+    """one query: does ANY of the obligations fail?  (assert-then-assume facts are left out)"""
+    asserts = [a for i, a in enumerate(ctx.asserts) if i not in ctx.ob_assume_idx]
+    goal = or_(*[and_(ob.pc, not_(ob.cond)) for ob in obs])
+    keep = relevant(asserts, goal)
+    used = used_names(keep + [goal])
+    out = []
+    if for_cvc5:
+        out.append('(set-option :produce-models true)')
+        out.append('(set-logic ALL)')
+    for name, argsorts, sort in ctx.decls:
+        if name not in used:
+            continue
+        if argsorts is None:
+            out.append('(declare-const %s %s)' % (sym(name), sort))
+        else:
+            out.append('(declare-fun %s (%s) %s)' % (sym(name), ' '.join(argsorts), sort))
+    for a in keep:
+        out.append('(assert %s)' % smt(a))
+    out.append('(assert %s)' % smt(goal))
+    out.append('(check-sat)')
+    return '\n'.join(out) + '\n'
+
+
+def check_batch(ctx, obs, timeout, workdir):
+    class O(object):
+        pass
+    o = O()
+    o.trivial = False
+    obs = [ob for ob in obs if not getattr(ob, 'trivial', False)]
+    if not obs:
+        return {'status': 'unsat', 'solver': 'trivial', 'time': 0.0, 'output': ''}
+    text = emit_batch(ctx, obs)
+    t0 = time.time()
+    st, outp, dt = run_solver('z3new', text, timeout, workdir)
+    if st in ('sat', 'unsat'):
+        return {'status': st, 'solver': 'z3new', 'time': dt, 'output': outp if st == 'sat' else ''}
+    st2, outp2, dt2 = run_solver('cvc5', emit_batch(ctx, obs, for_cvc5=True), timeout, workdir)
+    if st2 in ('sat', 'unsat'):
+        return {'status': st2, 'solver': 'cvc5', 'time': dt + dt2, 'output': outp2 if st2 == 'sat' else ''}
+    return {'status': 'unknown', 'solver': 'portfolio', 'time': dt + dt2, 'output': 'z3new: %s; cvc5: %s' % (st, st2)}
+
+
 def relevant(asserts, goal):
     """fixpoint over shared free symbols; quantified axioms are kept when they share a function/heap symbol."""
     info = []
